@@ -84,6 +84,19 @@ def gen_cases(tier, seed):
             for pos in range(0, len(base) + 1, step):
                 sched = base[:pos] + [4] * len(killer) * 3 + base[pos:]
                 add("plain", progs, sched + drain(progs) + [3] * 40, "systematic-pump-" + cause, pos > 0)
+    # every KIND of transport error ends the session: the read side reports <kind> (F:err:<kind>), or every write fails with
+    # <kind> from now on (FAILK:<kind>, then a write that meets it). The model has one read error and one write failure;
+    # the error kind is not a parameter of anything the property allows (seed C09-6)
+    for kind in ("reset", "aborted", "pipe", "timedout", "intr", "wouldblock", "eof", "notconn", "invalid", "oom", "other"):
+        for tok, follow in (("F:err:" + kind, False), ("FAILK:" + kind, True)):
+            for mode in ("plain", "start"):
+                progs = [[], worker(r, 1, "reader"), worker(r, 2, r.choice(["opener", "writer"]))]
+                killer = [tok] + (["B0", "W:2:77:ffff"] if follow else [])
+                progs.append(killer)
+                base = [1, 2] * 10
+                for pos in ((4, 13) if tier == "quick" else (0, 4, 9, 13, 17, 20)):
+                    sched = base[:pos] + [3] * len(killer) * 3 + base[pos:]
+                    add(mode, progs, sched + drain(progs), "error-kind-" + ("read" if not follow else "write"), True)
     # a transport that stalls (the peer stops reading: writes stay pending, no error): outside the model (a model write
     # completes or fails), run on the implementation only and judged by the oracle. Two opens complete, the transport
     # stalls, one task's write hangs inside the transport holding the writer mutex, then a cause fires.
@@ -192,7 +205,7 @@ def oracle(c, ir):
     args = " ".join(c.args)
     progs = [p.split() for p in args.split(" sched ")[0].split("|")[1:]]
     # a cause has fired if an explicit close / EOF / error / alert call was executed, or some write hit the failed transport
-    has_cause = any(tok in ("X", "F:eof", "F:err", "F:alert") or tok.startswith("F:cut:") for p in progs for tok in p) or \
+    has_cause = any(tok in ("X", "F:eof", "F:err", "F:alert") or tok.startswith("F:cut:") or tok.startswith("F:err:") for p in progs for tok in p) or \
         any("io" in res for _, (_, res) in o["tasks"].items())
     # nobody is left blocked: after the drain every task has finished its program
     for t, (pc, res) in o["tasks"].items():
